@@ -771,7 +771,7 @@ pub fn property() -> Property {
     Property {
         id: "C12",
         level: "exploration",
-        rule: "isolated: one document with an UndoManager (harness clock; scope = generated subset of the four roots; every op kind incl. nested types, map overwrites, formatting; GC on/off) runs 2..22 (36) steps of tracked edits (clock either not advanced -> same capture group, or advanced 10x the timeout -> new group), undo, redo, reset, forced GC; model = sequence of scope dumps at group boundaries: undo must yield the previous distinct dump (passing over groups that changed nothing), redo the next one, the return value must tell whether content changed, types outside the scope never change; after every step a follower fed with the emitted update events (v1/v2 alternating, gc off) and a peer that pulls by state vector (gc on) show exactly what the document shows (undo/redo are ordinary replicated operations).  mixed: two replicas over uniquely tagged sequence elements with tracked, untracked-origin and remote edits, syncs, undo, redo: after undo no element inserted by the undone group is visible and its deletions are back (unless another origin deleted them too), elements of other origins keep visibility and relative order and are never resurrected, nothing is visible twice, and after a final exchange both replicas are equal.  Non-trivial = >=2 undos that restored content (isolated) / an undo or redo ran while elements of other origins were visible (mixed); distinct = distinct generated case".into(),
+        rule: "isolated: one document with an UndoManager (harness clock; scope = generated subset of the four roots; every op kind incl. nested types, map overwrites, formatting; GC on/off) (undo/redo through the blocking or, in 30% of the cases, the async entry points) runs 2..22 (36) steps of tracked edits (clock either not advanced -> same capture group, or advanced 10x the timeout -> new group), undo, redo, reset, forced GC; model = sequence of scope dumps at group boundaries: undo must yield the previous distinct dump (passing over groups that changed nothing), redo the next one, the return value must tell whether content changed, types outside the scope never change; after every step a follower fed with the emitted update events (v1/v2 alternating, gc off) and a peer that pulls by state vector (gc on) show exactly what the document shows (undo/redo are ordinary replicated operations).  mixed: two replicas over uniquely tagged sequence elements with tracked, untracked-origin and remote edits, syncs, undo, redo: after undo no element inserted by the undone group is visible and its deletions are back (unless another origin deleted them too), elements of other origins keep visibility and relative order and are never resurrected, nothing is visible twice, and after a final exchange both replicas are equal.  Non-trivial = >=2 undos that restored content (isolated) / an undo or redo ran while elements of other origins were visible (mixed); distinct = distinct generated case".into(),
         assumptions: vec![
             "capture groups are decided by the harness clock: consecutive tracked edits without clock advance share a group, an advance of 10x the timeout, an undo/redo or reset() starts a new one".into(),
             "in the mixed part elements are unique, so a redone element is recognised by content".into(),
